@@ -71,9 +71,32 @@ def run(tier, rng, C):
         cases = gen(tier, rng)
         v, stats = C.differential("C09", cases, finding_class=finding_class, shrinkable=False,
                                   nontrivial=lambda l, o: "cli: ok" in o or o.startswith("ok ") or o.startswith("server "))
+        # bodies too large for the line protocol (beyond every library's default in-memory caps): pseudo-random
+        # bytes generated on both sides; the model's prediction (adapter_call a (SReply r) = Some r, the request
+        # delivered verbatim) is evaluated inside the harness as two equalities
+        sizes = [(11 * 1024 * 1024, 100), (100, 3 * 1024 * 1024), (16 * 1024 * 1024 + 1, 70000)] if tier == "quick" else \
+                [(11 * 1024 * 1024, 100), (100, 3 * 1024 * 1024), (16 * 1024 * 1024 + 1, 70000), (33 * 1024 * 1024, 1), (10 * 1024 * 1024, 10), (10 * 1024 * 1024 + 1, 10)]
+        big = []
+        for a in ADAPTERS:
+            for k, (rn, qn) in enumerate(sizes):
+                for fr in (FRAMINGS if tier != "quick" else [FRAMINGS[k % 3]]):
+                    big.append(("NETBIG %s %d %d %s %d" % (a, rn, qn, fr, 200 if k % 2 == 0 else 400), rn))
+        outs = C.run_lines(C.IMPL_BIN[0], [l for l, _ in big], shards=4)
+        bad = 0
+        for (l, rn), o in zip(big, outs):
+            want = "srv:1 reqsame=1 | cli: ok %s same=1 len=%d" % (l.split(" ")[5], rn)
+            if o != want:
+                bad += 1
+                if bad <= 3:
+                    path = C.write_replay("C09", {"property": "C09", "case": l, "impl_observation": o, "model_observation": want,
+                                                  "broken": "large-body transparency (Adapters.adapter_call on SReply; request glue)"})
+                    print("VIOLATION property=C09 replay=%s" % path.replace(C.VERIF + "/", ""))
+        v += bad
+        stats["large_body_cases"] = len(big)
+        stats["evaluations"] = stats.get("evaluations", 0) + len(big)
     finally:
         C.IMPL_BIN[0] = C.HARNESS_BIN
-    stats["rule"] = ("4 adapters x 10 statuses (200, 201, 302+Location, 400, 401, 403, 404, 429, 500, 503) x 4 Content-Types x 6 reply bodies (empty, JSON, all byte values, NUL/0xFF, 70 kB, token document) "
+    stats["rule"] = ("large bodies (11 MiB / 16 MiB + 1 replies, 3 MiB request) through every adapter; 4 adapters x 10 statuses (200, 201, 302+Location, 400, 401, 403, 404, 429, 500, 503) x 4 Content-Types x 6 reply bodies (empty, JSON, all byte values, NUL/0xFF, 70 kB, token document) "
                      "x 4 request bodies (small, 2 kB, 75 kB, all byte values) with framing rotating over Content-Length / chunked / close-delimited, 1 in 6 (quick) or all (thorough); "
                      "faults {refused, closed before reply, garbage status line, body truncated under Content-Length and under chunked framing} x 4 adapters; a full exchange_code per adapter for 8 replies x 3 Content-Types; "
                      "observed: bytes the server received (method, target, Accept/Content-Type/Authorization, body), the response or error the adapter returned, number of connections (redirects not followed); "
